@@ -19,7 +19,7 @@ def jobs(tier):
     ART = [(r"arithmetic overflow on signed - in end - p", "CBMC models the pointer difference end - p (p up to 7 bytes past end, inside the buffer) as an unsigned subtraction; "
             "argument of a _dbus_verbose call only; triaged by reading, see DESIGN.md findings")]
     fam_quick = [("y", 12), ("b", 12), ("n", 12), ("q", 12), ("i", 12), ("u", 12), ("h", 12), ("x", 16), ("t", 16), ("d", 16),
-                 ("s", 12), ("o", 12), ("g", 10), ("yu", 12), ("us", 12), ("sy", 12), ("ay", 12), ("ab", 12), ("au", 12), ("an", 12), ("at", 16),
+                 ("s", 12), ("s", 16), ("o", 12), ("g", 10), ("yu", 12), ("us", 12), ("sy", 12), ("ay", 12), ("ab", 12), ("au", 12), ("an", 12), ("at", 16),
                  ("(yu)", 12), ("(sy)", 12), ("as", 9), ("ao", 9), ("a{ys}", 9), ("a(yy)", 10), ("aay", 9)]
     # thorough-only shapes: each one was decided within its cap with 8 jobs in parallel on the 62 GB sandbox; the shapes tried and dropped
     # (no verdict: ag N>=6, symbolic-signature variants v/yv/a(yv)/a{sv} N>=7, aay N12, aau N>=10, a{su} N12) are listed in DESIGN.md
@@ -28,7 +28,7 @@ def jobs(tier):
         for sig, n in fam:
             heavy = any(c in sig for c in "v") or sig.startswith("aa") or sig in ("as", "ao", "ag", "a{ys}", "a{su}", "a{sv}", "a(us)")
             J.append(Job(name=f"b.body.{sig}.N{n}", group="C01.b", harness="harness/C01_body.c", defines={"SIG": '"' + sig + '"', "N": n},
-                         real=BODY_REAL, env=ENV + ["list_lifo.c"], unwind=n + 3, unwindset=["validate_body_helper:4", "ref_value:4"],
+                         real=BODY_REAL, env=ENV + ["list_lifo.c"], unwind=n + 3, unwindset=["validate_body_helper:4", "ref_value:4"], extra=["--object-bits", "11"] if sig in ("s", "us", "sy") else [],
                          timeout=600 if "quick" in tiers else 1800, mem_gb=(26 if sig == "ag" else 16) if heavy or sig == "ag" else 8, tiers=tiers, ignore=ART, termination_is_property=True,
                          encodes=["_dbus_validate_body_with_reason", "validate_body_helper", "_dbus_type_reader_init_types_only", "_dbus_type_reader_recurse",
                                   "_dbus_type_reader_next", "_dbus_type_reader_get_current_type", "_dbus_type_reader_get_element_type", "_dbus_validate_path",
